@@ -419,8 +419,15 @@ impl<'a> DocumentBuilder<'a> {
             .cloned()
         {
             false
+        } else if self
+            .scalar_type_defs
+            .iter()
+            .any(|scalar_ty_def| &scalar_ty_def.name == type_name)
+        {
+            // A custom scalar is a leaf, like an enum
+            false
         } else {
-            todo!("'{:?}' need to implement for union, scalar, ...", type_name);
+            todo!("'{:?}' need to implement for union, ...", type_name);
         }
     }
 
